@@ -18,7 +18,7 @@ use sos_vault::{AccessPoint, BuilderCredentials, SecretAccess, VaultBuilder};
 pub const META: PropertyMeta = PropertyMeta {
     id: "C10",
     level: "exploration",
-    rule: "symmetric: generated (cipher, 32-byte key, plaintext incl. empty/1 byte/KiB/MiB sizes) with a generated list of pack mutations (bit flips in nonce and ciphertext - exhaustive over every bit when the pack is <= 96 bytes -, truncation, extension, nonce/ciphertext swapped with a second pack, nonce width swap) and wrong keys; asymmetric: age X25519 packs with ciphertext mutations and a foreign identity; kdf: pools of passwords x salts x seeds for both KDFs; vault: VaultBuilder vaults verified/unlocked with own, foreign and perturbed passwords; history-nonces: every AeadPack reachable in logs and vaults after generated account histories, per folder key. Non-trivial = the case contains at least one tamper/wrong-key attempt (symmetric, asymmetric, vault) or at least two distinct derivation inputs (kdf) or >= 20 packs under one key (history). Distinct = distinct generated case.",
+    rule: "symmetric: generated (cipher, 32-byte key, plaintext incl. empty/1 byte/KiB/MiB sizes) with a generated list of pack mutations (bit flips in nonce and ciphertext - exhaustive over every bit when the pack is <= 96 bytes -, truncation, extension, nonce/ciphertext swapped with a second pack, nonce width swap) and wrong keys; asymmetric: age X25519 packs with ciphertext mutations and a foreign identity; kdf: pools of passwords (generated ones plus near-duplicates of the first: trailing / leading space, trailing newline, upper-cased, trailing NUL) x salts x seeds for both KDFs; vault: VaultBuilder vaults verified/unlocked with own, foreign and perturbed passwords (char appended / dropped / replaced, leading or trailing space, trailing newline or NUL, case swap); history-nonces: every AeadPack reachable in logs and vaults after generated account histories, per folder key. Non-trivial = the case contains at least one tamper/wrong-key attempt (symmetric, asymmetric, vault) or at least two distinct derivation inputs (kdf) or >= 20 packs under one key (history). Distinct = distinct generated case.",
     assumptions: &[
         "RNG quality is not tested: only structural nonce reuse (fixed, copied, derived-from-content) is detectable",
         "the nonce field of an age (X25519) pack is not an input of age decryption; nonce mutations are therefore asserted for the two symmetric ciphers only",
@@ -508,7 +508,17 @@ fn kdf_strategy() -> impl Strategy<Value = KdfCase> {
         proptest::collection::vec(any::<[u8; 16]>(), 1..3),
         proptest::collection::vec(proptest::option::of(any::<[u8; 32]>()), 1..3),
     )
-        .prop_map(|(balloon, passwords, salts, seeds)| KdfCase { balloon, passwords, salts, seeds })
+        .prop_map(|(balloon, mut passwords, salts, seeds)| {
+            // near-duplicates: a key derivation that normalises its input (trim, case fold,
+            // NUL cut) maps them onto the same key
+            let first = passwords[0].clone();
+            for v in [format!("{first} "), format!(" {first}"), format!("{first}\n"), first.to_uppercase(), format!("{first}\0")] {
+                if !passwords.contains(&v) {
+                    passwords.push(v);
+                }
+            }
+            KdfCase { balloon, passwords, salts, seeds }
+        })
 }
 
 // ---------------------------------------------------------------------------
@@ -583,7 +593,16 @@ async fn check_vault_inner(c: &VaultCase, info: &mut CaseInfo) -> CheckResult {
     for (kind, pos) in &c.perturb {
         let chars: Vec<char> = c.password.chars().collect();
         let mut s = chars.clone();
-        match kind % 4 {
+        match kind % 8 {
+            4 => s.push(' '),
+            5 => s.push('\n'),
+            6 => {
+                if !s.is_empty() {
+                    let i = pick(*pos, s.len());
+                    s[i] = if s[i].is_lowercase() { s[i].to_uppercase().next().unwrap_or('Q') } else if s[i].is_uppercase() { s[i].to_lowercase().next().unwrap_or('q') } else { 'Q' };
+                }
+            }
+            7 => s.push('\0'),
             0 => s.push('x'),
             1 => {
                 if !s.is_empty() {
